@@ -440,12 +440,27 @@ func (s *Server) getConn(l *coapNet.UDPConn, raddr *net.UDPAddr, laddr *net.UDPA
 		if closeFn := getClose(cc); closeFn != nil {
 			closeFn()
 		}
+		// The on-close hook that removes cc from s.conns runs only once and may still be
+		// pending in another goroutine (handleInactivityMonitors). Drop the entry here so
+		// that the retry creates a new connection instead of finding the closed one again.
+		s.forgetConn(cc)
 		if firstTime {
 			return s.getConn(l, raddr, laddr, false)
 		}
 		return nil, errors.New("connection is closed")
 	}
 	return cc, nil
+}
+
+// forgetConn removes a closed connection from the peer table if it is still registered there.
+func (s *Server) forgetConn(cc *client.Conn) {
+	s.connsMutex.Lock()
+	defer s.connsMutex.Unlock()
+	for key, c := range s.conns {
+		if c == cc {
+			delete(s.conns, key)
+		}
+	}
 }
 
 // NewConn creates or gets a connection for the provided remote address.
